@@ -20,6 +20,24 @@
 #include "common/util.h"
 #include "common/dump.h"
 
+#include <malloc.h>
+
+/* Every realloc of the library (coap_pdu_resize) moves the block and poisons the old one, so that a
+ * pointer the code kept across the call reads garbage at once (linked with --wrap=coap_realloc_type). */
+void *__real_coap_realloc_type(coap_memory_tag_t type, void *p, size_t size);
+void *__wrap_coap_realloc_type(coap_memory_tag_t type, void *p, size_t size) {
+  void *n;
+  size_t old;
+  if (!p) return coap_malloc_type(type, size);
+  n = coap_malloc_type(type, size);
+  if (!n) return NULL;
+  old = malloc_usable_size(p);
+  memcpy(n, p, old < size ? old : size);
+  memset(p, 0xA5, old);
+  coap_free_type(type, p);
+  return n;
+}
+
 static coap_proto_t proto_of(const char *s) {
   if (!strcmp(s, "udp")) return COAP_PROTO_UDP;
   if (!strcmp(s, "tcp")) return COAP_PROTO_TCP;
@@ -42,6 +60,7 @@ static void exact_fit(coap_pdu_t *pdu) {
   uint8_t *nw = (uint8_t *)coap_malloc_type(COAP_PDU_BUF, need + pdu->max_hdr_size);
   if (!nw) return;
   memcpy(nw, old, need + pdu->max_hdr_size);
+  memset(old, 0xA5, malloc_usable_size(old));
   coap_free_type(COAP_PDU_BUF, old);
   pdu->token = nw + pdu->max_hdr_size;
   pdu->data = doff ? pdu->token + doff : NULL;
